@@ -558,6 +558,9 @@ impl Database {
                     if (*provided_val as u64) > auto_increment_max {
                         auto_increment_max = *provided_val as u64;
                     }
+                    if (*provided_val as u64) > auto_increment_current {
+                        auto_increment_current = *provided_val as u64;
+                    }
                 }
             }
 
